@@ -227,20 +227,37 @@ static char *unesc(char *s)
 	*w = 0; return s;
 }
 static struct _echsd_s *ctx;
-/* a request as sock_data_cb handles it, reply captured from a pipe */
-static void do_request(const char *kind, uid_t peer, char *text)
+/* a request as sock_data_cb handles it, reply captured from a pipe.  chunks: NULL = the whole text arrives with one
+ * recv(); otherwise a comma separated list of sizes: the text arrives in pieces of these sizes (the last size repeats),
+ * each handled like one readable event of the connection, followed by the end-of-file event */
+static void do_request_chunked(const char *kind, uid_t peer, char *text, const char *chunks)
 {
 	int pfd[2]; if (__real_pipe(pfd) < 0) return;
 	fcntl(pfd[0], F_SETFL, O_NONBLOCK);
 	struct echs_cmdparam_s param; memset(&param, 0, sizeof(param));
 	ncred_t cred = {peer, peer, "/tmp", "/bin/sh"};
 	size_t len = strlen(text);
-	echs_cmd_t c = feed_cmd(&param, text, len);
 	const char *what = "unk";
-	switch (c) {
-	case ECHS_CMD_HTTP: what = "http"; (void)cmd_http(&the_loop, pfd[1], &param.http, cred); break;
-	case ECHS_CMD_ICAL: what = "ical"; (void)cmd_ical(&the_loop, pfd[1], &param.ical, cred); break;
-	default: break;
+	if (chunks == NULL) {
+		echs_cmd_t c = feed_cmd(&param, text, len);
+		switch (c) {
+		case ECHS_CMD_HTTP: what = "http"; (void)cmd_http(&the_loop, pfd[1], &param.http, cred); break;
+		case ECHS_CMD_ICAL: what = "ical"; (void)cmd_ical(&the_loop, pfd[1], &param.ical, cred); break;
+		default: break;
+		}
+	} else {
+		size_t off = 0, sz = 4096; const char *cp = chunks; int done = 0;
+		while (!done) {
+			if (cp && *cp) { sz = strtoul(cp, (char**)&cp, 10); if (*cp == ',') cp++; if (!sz) sz = 1; }
+			size_t n = len - off < sz ? len - off : sz;      /* n == 0: the peer has closed its end */
+			static char iobuf[4096]; if (n > sizeof(iobuf)) n = sizeof(iobuf);
+			memcpy(iobuf, text + off, n); off += n;
+			switch (feed_cmd(&param, iobuf, n)) {
+			case ECHS_CMD_HTTP: what = "http"; (void)cmd_http(&the_loop, pfd[1], &param.http, cred); done = 1; break;
+			case ECHS_CMD_ICAL: what = "ical"; (void)cmd_ical(&the_loop, pfd[1], &param.ical, cred); if (n == 0) done = 1; break;
+			default: done = 1; break;
+			}
+		}
 	}
 	shut_cmd(&param);
 	__real_close(pfd[1]);
@@ -249,6 +266,7 @@ static void do_request(const char *kind, uid_t peer, char *text)
 	rb[n] = 0; __real_close(pfd[0]);
 	fprintf(o, "{\"e\":\"%s\",\"peer\":%u,\"parsed\":\"%s\",\"reply\":", kind, peer, what); jstr(rb); fputs("}\n", o);
 }
+static void do_request(const char *kind, uid_t peer, char *text) { do_request_chunked(kind, peer, text, NULL); }
 static ev_tstamp tstamp_probe(echs_instant_t i) { return instant_to_tstamp(i); }
 
 int main(int argc, char *argv[])
@@ -285,6 +303,10 @@ int main(int argc, char *argv[])
 		char *a1 = strchr(line, '\t'); if (a1) *a1++ = 0;
 		char *a2 = a1 ? strchr(a1, '\t') : NULL; if (a2) *a2++ = 0;
 		if (!strcmp(line, "A")) { do_request("Req", (uid_t)strtoul(a1, 0, 10), unesc(a2)); }
+		else if (!strcmp(line, "AC")) {
+			/* AC \t peer \t sizes \t text: the request arrives in pieces */
+			char *a3 = a2 ? strchr(a2, '\t') : NULL; if (a3) { *a3++ = 0; do_request_chunked("Req", (uid_t)strtoul(a1, 0, 10), unesc(a3), a2); }
+		}
 		else if (!strcmp(line, "H")) { char rq[512]; snprintf(rq, sizeof(rq), "%s\r\n\r\n", a2); do_request("Http", (uid_t)strtoul(a1, 0, 10), rq); }
 		else if (!strcmp(line, "T")) { the_loop.now += atof(a1); fprintf(o, "{\"e\":\"Tick\",\"now\":%.1f}\n", the_loop.now - T0); }
 		else if (!strcmp(line, "R")) { hx_reify(); fprintf(o, "{\"e\":\"Reify\",\"now\":%.1f}\n", the_loop.now - T0); }
